@@ -8,6 +8,7 @@ spec = {
   "attrs": {"<i>": {name: value}},              # optional extra attributes
   "extra": [[k, i], ...],                       # edge k additionally lists vertex i (not one of its ends)
   "edges_gone": [[cls, i, j, "l"|"v"|"s", pos]], # former links (i != j), created at creation position pos, removed again
+  "vunis": {"<i>": [k, ...]},                   # vertex i also lives in auxiliary universes k (0..2)
   "link_unis": [[k, "aux"|"own"], ...],          # edge k was filed under another universe / the graph's own one
   "half": [[k, 0|1], ...],                      # edge k lost that end (Vertex.remove_from_link): 1-entry end list
   "laws": {rule: bool} | None,                  # non-default (or no) laws on the universe
@@ -64,6 +65,10 @@ def build(spec) -> Built:
         if str(i) in uids:
             kw["uid"] = uids[str(i)]  # uids are user-assignable and nothing makes them unique
         g.verts.append(_VCLS[cname](**kw))
+    for i, v in enumerate(g.verts):
+        if isinstance(v, zoo.ClusterVertex):
+            # a vertex that is also an iterable of (other) vertices
+            v.members = [g.verts[(i + 1) % len(g.verts)], g.verts[(i + 2) % len(g.verts)]]
     for k, ed in enumerate(spec["edges"]):
         cname, i, j = ed[0], ed[1], ed[2]
         tag = ed[3] if len(ed) > 3 else k
@@ -136,6 +141,14 @@ def build(spec) -> Built:
                 g.verts[i].remove_from_universe(g.uni)
             else:
                 g.uni.remove_vertex(g.verts[i])
+    if spec.get("vunis"):
+        # further universes some vertices live in (a vertex may be in any number of universes; which ones says
+        # nothing about what it is linked to)
+        g.xunis = [zoo.Universe() for _ in range(3)]
+        for i, ks in spec["vunis"].items():
+            for k in ks:
+                if int(i) < len(g.verts):
+                    g.xunis[k % 3].add_vertex(g.verts[int(i)])
     for k, which in getattr(g, "link_unis", []):
         if k < len(g.edges):
             target = g.uni if (which == "own" and g.uni is not None) else g.aux_uni
@@ -145,13 +158,13 @@ def build(spec) -> Built:
 
 
 VCLS_PLAIN = ["Vertex"]
-VCLS_MIX = ["Vertex", "Vertex", "VSub", "VSubSub", "FalsyVertex", "EmptyVertex", "Universe", "VBoth", "VFancy", "StrVertex", "VSlots", "VCallable"]
+VCLS_MIX = ["Vertex", "Vertex", "VSub", "VSubSub", "FalsyVertex", "EmptyVertex", "Universe", "VBoth", "VFancy", "StrVertex", "VSlots", "VCallable", "VCustomState", "VCachingOn"]
 ECLS_DU = ["DirectedEdge", "UnDirectedEdge", "DSub", "DSubSub", "USub", "MixEdge", "FalsyEdge", "RenamedEdge", "PosOnlyEdge"]
 ECLS_ALL = ECLS_DU + ["OtherLink", "OtherLink2", "TwoEndedLink"]
 # + a two-ended link built directly on Link, and a second unknown class that is also called OtherLink
 ECLS_X = ECLS_ALL + ["DuckLink", "OtherLink~"]
 # + classes sharing their __name__ with another class, and a class with callable instances
-VCLS_X = VCLS_MIX + ["Vertex~", "VSub~", "VDirLess", "VRecord"]
+VCLS_X = VCLS_MIX + ["Vertex~", "VSub~", "VDirLess", "VRecord", "ClusterVertex"]
 
 
 def features(spec) -> set:
@@ -189,6 +202,8 @@ def features(spec) -> set:
         f.add("former_links")
     if spec.get("link_unis"):
         f.add("links_filed_under_universes")
+    if spec.get("vunis"):
+        f.add("vertices_in_further_universes")
     if spec.get("uni") is not None and "laws" in spec:
         f.add("non_default_laws")
     return f
@@ -225,6 +240,8 @@ def rand_spec(rng: random.Random, nmax=6, mmax=12, vcls=VCLS_MIX, ecls=ECLS_ALL,
         spec["uni_cls"] = "FalsyUniverse"
     if uni is not None and rng.random() < 0.3:
         spec["laws"] = None if rng.random() < 0.15 else {k: rng.random() < 0.5 for k in ("mixed_links", "cycles", "multipath", "multiverse")}
+    if rng.random() < 0.2:
+        spec["vunis"] = {str(i): rng.sample(range(3), rng.randint(1, 2)) for i in range(n) if rng.random() < 0.8}
     if edges and rng.random() < 0.15:
         spec["link_unis"] = [[rng.randrange(len(edges)), rng.choice(["aux", "aux", "own"])] for _ in range(rng.randint(1, 3))]
     if uni is not None and len(set(uni)) < n and rng.random() < 0.4:
